@@ -470,7 +470,9 @@ fn search_one(x: &F, seed: u64, per: usize) -> Stats {
             // (3) a failure injected into G at every position, caught by a handler: the handler sees the
             //     original arguments, nothing is left in the context, and an under run afterwards works
             let nin = input.len();
-            let handler = if is_on { "." } else { match nin { 1 => "∘", 2 => "⊙∘", _ => "⊙⊙∘" } };
+            // index taken from the stack (⍜↙G n x is 2 -> 1): the handler drops the index and hands x back
+            let dyadic_sel = x.args == 2 && arr_i == 0;
+            let handler = if is_on { "." } else if dyadic_sel { "◌" } else { match nin { 1 => "∘", 2 => "⊙∘", _ => "⊙⊙∘" } };
             let mut injected: Vec<String> = Vec::new();
             for j in 0..=g_parts.len() {
                 let mut parts: Vec<&str> = g_parts.clone();
@@ -500,7 +502,7 @@ fn search_one(x: &F, seed: u64, per: usize) -> Stats {
                     match res {
                         Ok(out) => {
                             st.residue_err_checked += 1;
-                            let mut expect: Vec<Value> = args.clone();
+                            let mut expect: Vec<Value> = if dyadic_sel { args[..1].to_vec() } else { args.clone() };
                             if is_on {
                                 expect.push(args[0].clone());
                             }
@@ -519,8 +521,12 @@ fn search_one(x: &F, seed: u64, per: usize) -> Stats {
                         Err(e) => {
                             if e.contains("boom") || e.starts_with("PANIC") {
                                 viol("handler-state", &x, &prog, &args, &format!("the failure escaped the handler: {e}"));
+                            } else if g.contains("boom") {
+                                // F applies to the input and the handler hands the arguments back: nothing may fail
+                                // (e.g. an enclosing under popping a context value the failed one left behind)
+                                viol("handler-state", &x, &prog, &args, &format!("after the injected failure was caught the program fails: {e}"));
                             }
-                            // other errors: the handler's own signature did not fit, not our concern
+                            // a shape-changing G may legitimately make an enclosing undo fail
                         }
                     }
                 }
@@ -559,6 +565,25 @@ fn main() {
             println!("{{\"summary\":true,\"catalogue\":{}}}", fs.len());
         }
         "search" => {
+            // regression inputs of repaired defects (37254dd switch selector under an under-condition,
+            // e20bf71 undo keep / a8d90c3 undo select on rows without elements): must succeed, leave no residue
+            for (src, want) in [("⍜(⨬(×2)(+1))(×10) [] []", Some("[0]:[]")), ("⍜(▽1_1_7)⇌↯2_0_2 0", None), ("⬚0⍜(⊏¯4)⇌↯3_0 0", None), ("⍜(⨬(×2)(+1))(×10) 1 5", Some("[]:59"))] {
+                let (res, d, un) = run_depths(&format!("# Experimental!\n{src}"), &[]);
+                let f0 = &fs[0];
+                match res {
+                    Ok(out) => {
+                        if let Some(w) = want {
+                            if show(&out) != w {
+                                viol("regression", f0, src, &[], &format!("expected {w}, got {}", show(&out)));
+                            }
+                        }
+                        if let Some(e) = residue(&d, un) {
+                            viol("residue-ok", f0, src, &[], &e);
+                        }
+                    }
+                    Err(e) => viol("regression", f0, src, &[], &format!("a repaired program fails again: {e}")),
+                }
+            }
             let per = (n / fs.len()).max(2);
             let mut tot = Stats::default();
             for x in &fs {
